@@ -674,6 +674,13 @@ def check_seek(chk, tu, macros):
                        'fd_tell calls lseek%r, expected lseek(fd, 0, SEEK_CUR)' % (tuple(seeks[0]) if seeks else (),), 'fd_tell')
 
 
+# errors POSIX requires ("shall fail") of the host operations the properties name - rmdir/rename (ENOTEMPTY), every pathname
+# resolution (ELOOP, ENAMETOOLONG), open/stat/fstat/lseek/read on objects whose size or offset is not representable (EOVERFLOW): each
+# has its own witx number, so reporting them as INVAL is a wrong error code, not an unknown one
+REQUIRED_ERRNO = {'ENOTEMPTY': 'rmdir or rename onto a non-empty directory', 'ELOOP': 'a symbolic-link loop during pathname resolution',
+                  'ENAMETOOLONG': 'a pathname component longer than NAME_MAX', 'EOVERFLOW': 'a file size or offset not representable'}
+
+
 def check_errno_table(chk, tu, macros, rule='R12.3'):
     f = tu.fn('wasiErrno')
     chk.fn('wasiErrno')
@@ -697,6 +704,13 @@ def check_errno_table(chk, tu, macros, rule='R12.3'):
         if p.ret == O.ERRNO_NUM['inval'] and O.ERRNO_NUM['inval'] not in wants:
             handled = any(astdb.const_int(c['inner'][0], tu) == v for c in walk(astdb.fn_body(f)) if c.get('kind') == 'CaseStmt')
             if not handled:
+                req = [nm for nm in names if nm in REQUIRED_ERRNO]
+                if req:
+                    chk.fail(rule, 'errno:%s' % '/'.join(names),
+                             'host errno %s (%d) - what POSIX requires for %s - has no row in the errno table and is reported as INVAL (28); '
+                             'the witx number of %s is %s: the guest cannot tell this failure from an invalid argument'
+                             % (req[0], v, REQUIRED_ERRNO[req[0]], O.HOST_ERRNO[req[0]], sorted(wants)), 'wasiErrno:%s' % req[0])
+                    continue
                 chk.note('host %s (%d) is not in the errno table (reported as EINVAL)' % ('/'.join(names), v))
                 continue
         chk.expect(p.ret in wants, rule, 'errno:%s' % '/'.join(names),
